@@ -12,7 +12,7 @@ RULE = ("all (numerator, denominator) in {1..7,12}x{2,4,8,16} x durations {0, ca
         "note shapes x signature-event configurations (none / matching / conflicting / twice / mixed, at tick 0 or "
         "mid-bar) x key {None, C, F#} x construction route {absolute, relative}; non-trivial = padding, rejection or a "
         "signature event is involved")
-SCALE = ('bars with 8/24 notes (long); dense bars (4/4, 3/4, 12/8, 3/2) of chords of 1..8 voices every second tick (up to ~800 stored messages), 0-2 ticks leading rest, durations cap, cap-1, cap-2, cap-5, conflicting / second signatures at a quarter, half, three quarters and the last tick of the bar')
+SCALE = ('bars with 8/24 notes (long); dense bars (4/4, 3/4, 12/8, 3/2) of chords of 1..8 voices every second tick (up to ~800 stored messages), 0-2 ticks leading rest, durations cap, cap-1, cap-2, cap-5, conflicting / second signatures at a quarter, half, three quarters and the last tick of the bar; two different signatures on one tick in either order; x/32 and even x/64 bars; numpy integer ticks every 5th case')
 ASSUMPTIONS = ["a redundant repeat of the matching signature may be accepted or rejected (statement is silent)"]
 REQUIRED_FLAGS = ["hanging_note_ons", "after_history", "padded", "rejected_too_long", "rejected_conflicting_signature", "rejected_equal_length_signature", "accepted_exact", "signature_mid_bar",
                   "copy_compared", "dense_bar", "signature_deep_inside_a_dense_bar"]
